@@ -178,6 +178,7 @@ def run(ctx):
                     etree.SubElement(d, "{%s}x%d" % (xsdgen.TNS, pk)).text = "v"
                 check_doc(ctx, res, case, d, case.model_type(3), "nested-choice", pending, compare_calls=True)
     reply_family(ctx, res)
+    xsitype_chain_family(ctx, res)
     # model: exact equality of the number of decode calls (and of outcomes / values where comparable)
     if ctx.model and pending:
         outs = ctx.model.run([p[0] for p in pending])
@@ -267,6 +268,40 @@ def reply_family(ctx, res):
                                          case=dict(kind="reply", name=name, strict=strict, status=status, reply=content.decode())))
 
 
+CHAIN_XSD = ('<xs:schema xmlns:xs="http://www.w3.org/2001/XMLSchema" xmlns:t="urn:chain" targetNamespace="urn:chain" elementFormDefault="qualified">'
+             '<xs:complexType name="Node"><xs:sequence><xs:element name="label" type="xs:string"/><xs:element name="child" type="t:Node" minOccurs="0"/></xs:sequence></xs:complexType>'
+             '<xs:complexType name="NodeX"><xs:complexContent><xs:extension base="t:Node"><xs:sequence><xs:element name="x" type="xs:int" minOccurs="0"/></xs:sequence></xs:extension></xs:complexContent></xs:complexType>'
+             '<xs:element name="root" type="t:Node"/></xs:schema>')
+
+
+def xsitype_chain_family(ctx, res):
+    """documents nested n deep through a recursive type, every level announcing a derived type with xsi:type, valid or with an
+    undeclared element at the bottom: the work must grow with the size of the document, not with 2^depth"""
+    import zeep.xsd
+    import zeep.settings
+    XSI = "http://www.w3.org/2001/XMLSchema-instance"
+    for depth in (2, 6, 10, 14, 18, 24):
+        for bottom, bname in (("", "valid"), ('<c:zzz xmlns:c="urn:chain">stray</c:zzz>', "stray-at-the-bottom"), ('<c:x xmlns:c="urn:chain">not-a-number</c:x>', "bad-leaf-at-the-bottom")):
+            inner = bottom
+            for i in range(depth):
+                inner = '<c:child xsi:type="c:NodeX"><c:label>l%d</c:label>%s</c:child>' % (i, inner) if i else \
+                        '<c:child xsi:type="c:NodeX"><c:label>l0</c:label>%s</c:child>' % bottom
+            text = '<c:root xmlns:c="urn:chain" xmlns:xsi="%s" xsi:type="c:NodeX"><c:label>top</c:label>%s</c:root>' % (XSI, inner)
+            for strict in (True, False):
+                zs = zeep.xsd.Schema(etree.fromstring(CHAIN_XSD.encode()), settings=zeep.settings.Settings(strict=strict))
+                root = zs.get_element("{urn:chain}root")
+                d = etree.fromstring(text.encode())
+                budget = 4000 * (depth + 2) + 20000
+                outcome, events, v = enginea.budgeted(lambda: root.parse(d, zs), budget)
+                res.case(key=("xsitype-chain", depth, bname, strict), nontrivial=True)
+                res.count("doc:xsitype-chain")
+                res.count("outcome:" + outcome)
+                res.extra["max_events_per_level_xsitype_chain"] = max(res.extra.get("max_events_per_level_xsitype_chain", 0), round(events / (depth + 2), 1))
+                if outcome == "BUDGET":
+                    res.failures.append(dict(what="decoding a chain of %d nested xsi:typed elements did not finish within %d interpreter call events" % (depth, budget),
+                                             case=dict(kind="xsitype-chain", depth=depth, bottom=bname, strict=strict, document=text[:2000])))
+
+
 def search(ctx):
     return run(ctx)
 
@@ -274,6 +309,11 @@ def search(ctx):
 def replay(ctx, payload):
     c = payload.get("case", payload)
     src = None
+    if c.get("kind") == "xsitype-chain":
+        r = Result()
+        xsitype_chain_family(ctx, r)
+        bad = [f for f in r.failures if f["case"].get("depth") == c.get("depth") and f["case"].get("bottom") == c.get("bottom")]
+        return (not bad), "xsi:type chain rerun: %d matching failures" % len(bad)
     if c.get("kind") == "reply":
         r = Result()
         reply_family(ctx, r)
